@@ -759,6 +759,17 @@ def gens_case(env, case, st):
             st.calls += 1
             if r != 0 or ill < 1 or err:
                 st.fail("generators_serialize with a too small buffer: ret=%d illegal=%d error=%d" % (r, ill, err), d)
+            if k <= 4:
+                # every shorter declared length on an exactly sized heap buffer: refused before anything is written (ASan red zone)
+                for room in range(0, 33 * k):
+                    ln = c_size_t(room)
+                    ob_ = exact(b"\xee" * max(room, 1))
+                    r = L.bppp_generators_serialize(L.ctx, obj, ob_, byref(ln))
+                    ill, err = L.cb_take()
+                    st.calls += 1
+                    if r != 0 or ill < 1 or err:
+                        st.fail("generators_serialize into %d bytes (needs %d): ret=%d illegal=%d error=%d" % (room, 33 * k, r, ill, err), d)
+                        break
         L.bppp_generators_destroy(L.ctx, obj)
         st.count("list ok")
         st.nt(k)
